@@ -7,8 +7,18 @@ buffer schedules enumerated from spec/IOSchedule.tla, one event per public call
 is recorded, and TLC validates every event against spec/IOClauses.tla through
 spec/Trace_Std.tla (Mode = "contract").  spec/IOContract.tla's closed model is
 model-checked to show the clause set gives the caller bounded work.
+
+The checked build (hook H3, internal/cgen/range_verif.go; C01 on std): the same
+std is generated a second time with the compiler's own derived ranges (the
+checker's MBounds of every index, slice bound, non-modular arithmetic result,
+conversion, divisor, shift amount, argument, stored and returned value)
+asserted at run time; the driver records the failed assertions of every public
+call in the call's event ("range_viol", first site and value) and TLC evaluates
+the clause ClaimedRangesHold (spec/IOClauses.tla) on every such event.  Thorough
+tier: every job; quick tier: every input under its one-shot schedule plus a
+seeded sample of the chunked jobs.
 """
-import json, os, shutil, time
+import json, os, shutil, time, concurrent.futures
 from vlib import ToolingError, VERIF, parse_tlc_prints
 import stdbuild, stdtrace, stdinputs
 
@@ -46,18 +56,33 @@ def spec_side(ctx):
 
 
 def save_input(ctx, path, name):
-    d = os.path.join(VERIF, "replays", "inputs")
+    import vlib
+    # runs against a scratch worktree (VERIF_REPO) keep their replays under /tmp, as vlib does
+    d = os.path.join(VERIF, "replays", "inputs") if vlib.REPO == "/repo" else os.path.join("/tmp", "verif-replays-alt", "inputs")
     os.makedirs(d, exist_ok=True)
     dst = os.path.join(d, "%s-%s-%d-%s" % (ctx.id, ctx.tier, ctx.seed, name))
     shutil.copy(path, dst)
     return dst
 
 
-def build(ctx, variants):
+RANGE = "rangeassert"   # stdbuild variant of the checked build
+RANGE_ID0 = 10000000    # job ids of the checked build's copies of the jobs
+
+
+def build(ctx, variants, checked=False):
+    """Regenerates std and compiles the driver variants in parallel.  With checked=True the checked build (H3) is
+    generated and compiled too (exes["rangeassert"], root "rangeroot" in the returned dict) when the working tree
+    has the hook; otherwise exes has no such entry."""
     tools = stdbuild.build_tools(ctx)
     root = stdbuild.gen_std(ctx, tools)
-    res = stdbuild.compile_many(ctx, root, "stddrive.c", variants)
-    exes = {}
+    rroot = stdbuild.gen_std(ctx, tools, range_assert=True) if checked else None
+    todo = [(v, root) for v in variants] + ([(RANGE, rroot)] if rroot else [])
+    res = {}
+    with concurrent.futures.ThreadPoolExecutor(max_workers=len(todo)) as ex:
+        futs = {v: ex.submit(stdbuild.compile_driver, ctx, r, "stddrive.c", v) for v, r in todo}
+        for v, f in futs.items():
+            res[v] = f.result()
+    exes = {"rangeroot": rroot} if rroot else {}
     for v, (exe, log) in res.items():
         if exe is None:
             # The C generated from the working tree does not compile: that is a
@@ -93,8 +118,9 @@ def run(ctx):
     thorough = ctx.tier == "thorough"
     classes = spec_side(ctx)
     ctx.log("IOSchedule exported %d classes" % len(classes))
-    tools, root, exes = build(ctx, ["asan", "plain"])
-    ctx.log("built drivers")
+    tools, root, exes = build(ctx, ["asan", "plain"], checked=True)
+    ctx.log("built drivers" + (" (+ the checked build: %d range assertion sites)" % sum(stdbuild.range_sites(exes["rangeroot"]).values())
+                               if RANGE in exes else " (no checked build: the working tree has no hook H3)"))
     rng = ctx.rng
     inputs = make_inputs(ctx, nmut=(12 if thorough else 2), max_size=(4 << 20) if thorough else (1 << 20))
     oneshot = [c for c in classes if c["src"] == [-1] and c["dst"] == [-1]]
@@ -141,14 +167,31 @@ def run(ctx):
                 j = {"id": jid, "dec": h, "in": p, "parts": parts, "init": rng.choice((0, 2)), "prefill": rng.choice(("00", "A5", "FF"))}
                 meta[jid] = {"input": p, "origin": "corpus", "dec": h, "class": {"parts": parts}}
                 (jobs_plain if parts == "*" else jobs_asan).append(j)
-    ctx.log("jobs: %d under ASan+UBSan, %d under the allocator wrap" % (len(jobs_asan), len(jobs_plain)))
+    # the checked build (H3): thorough = every job once more; quick = every input under its one-shot schedule (few
+    # events per job) + a seeded sixth of the chunked jobs
+    jobs_range = []
+    if RANGE in exes:
+        oneshot_keys = {json.dumps(c, sort_keys=True) for c in oneshot}
+        for j in jobs_asan + jobs_plain:
+            m = meta[j["id"]]
+            is_oneshot = json.dumps(m["class"], sort_keys=True) in oneshot_keys or m["class"].get("parts") == "*"
+            if thorough or is_oneshot or rng.random() < 1.0 / 6:
+                j2 = dict(j)
+                j2["id"] = RANGE_ID0 + j["id"]
+                meta[j2["id"]] = dict(m, build=RANGE)
+                jobs_range.append(j2)
+    ctx.log("jobs: %d under ASan+UBSan, %d under the allocator wrap, %d under the range assertions of the checked build" % (
+        len(jobs_asan), len(jobs_plain), len(jobs_range)))
     ev_asan = stdtrace.run_jobs(ctx, exes["asan"], jobs_asan, sanitizer=True)
     ev_plain = stdtrace.run_jobs(ctx, exes["plain"], jobs_plain, sanitizer=False)
-    ctx.log("driver runs done: %d events" % (sum(len(v) for v in ev_asan.values()) + sum(len(v) for v in ev_plain.values())))
-    allj = sorted(list(ev_asan.items()) + list(ev_plain.items()))
+    ev_range = stdtrace.run_jobs(ctx, exes[RANGE], jobs_range, sanitizer=False) if jobs_range else {}
+    ctx.log("driver runs done: %d events" % (sum(len(v) for v in ev_asan.values()) + sum(len(v) for v in ev_plain.values())
+                                             + sum(len(v) for v in ev_range.values())))
+    allj = sorted(list(ev_asan.items()) + list(ev_plain.items()) + list(ev_range.items()))
     nev, rejections = stdtrace.validate(ctx, allj, "contract", "C03")
     ctx.log("TLC validated %d events, %d rejections" % (nev, len(rejections)))
-    report(ctx, rejections, meta, jobs_asan + jobs_plain)
+    report(ctx, rejections, meta, jobs_asan + jobs_plain + jobs_range)
+    checked = checked_build_coverage(exes, jobs_range, ev_range, rejections)
 
     # evidence
     calls = sum(1 for j, evs in allj for e in evs if e.get("k") in ("call", "hcall"))
@@ -184,13 +227,33 @@ def run(ctx):
         "jobs_under_allocator_wrap": len(jobs_plain),
         "final_status_classes_per_decoder": stat,
         "schedule_classes": len(classes),
+        "checked_build": checked,
         "states": sum(t["distinct"] for t in ctx.tlc_stats),
         "transitions": sum(t["generated"] for t in ctx.tlc_stats),
     }, assumptions=[
         "memory safety is observed by ASan/UBSan on the executions that were run; it is not proved",
-        "wrap-around of unsigned arithmetic inside one struct is invisible to the sanitizers (see C01 for the checker's own ranges)",
+        "wrap-around of unsigned arithmetic inside one struct is invisible to the sanitizers; the checked build (coverage.checked_build) asserts "
+        "the checker's own ranges instead, but not inside while-loop conditions, whose cached ranges belong to the loop-entry proving site "
+        "(there only index/slice bounds and overflow of the C type are asserted)",
         "the allocator wrap sees malloc/calloc/realloc/free only",
     ])
+
+
+def checked_build_coverage(exes, jobs_range, ev_range, rejections):
+    """Measured numbers of the checked build's run (evidence; C01 refers to them)."""
+    if RANGE not in exes:
+        return {"available": False, "why": "the working tree has no internal/cgen/range_verif.go (hook H3)"}
+    sites = stdbuild.range_sites(exes["rangeroot"])
+    calls = evals = viol = 0
+    for evs in ev_range.values():
+        for e in evs:
+            if "range_viol" in e:
+                calls += 1
+                viol += e["range_viol"]
+                evals += int(e.get("range_evals", "0"))
+    return {"available": True, "assertion_sites": sum(sites.values()), "assertion_sites_by_kind": sites, "jobs": len(jobs_range),
+            "events_carrying_range_viol": calls, "assertions_evaluated": evals, "assertions_failed": viol,
+            "jobs_rejected_for_ClaimedRangesHold": sorted({r["job"] for r in rejections if "ClaimedRangesHold" in r["clauses"]})}
 
 
 def report(ctx, rejections, meta, jobs):
@@ -200,6 +263,18 @@ def report(ctx, rejections, meta, jobs):
         job = byid.get(r["job"], {})
         saved = save_input(ctx, m["input"], os.path.basename(m["input"])) if m.get("input") and os.path.exists(m["input"]) else None
         ev = r["event"]
+        if "ClaimedRangesHold" in r["clauses"]:
+            # C01 on std: a range the compiler derived is false in a concrete run of the (checked build of the) generated C
+            what = ("std/%s: %d run-time assertion(s) of a compiler-derived range failed during %s (checked build, hook H3); first: %s, "
+                    "value %s outside %s ..= %s; input %s [%s], schedule %s" % (
+                        m.get("dec"), ev.get("range_viol", 0), ev.get("m", ev.get("k")), ev.get("range_site"), ev.get("range_value"),
+                        ev.get("range_lo"), ev.get("range_hi"), os.path.basename(m.get("input", "?")), m.get("origin"),
+                        json.dumps(m.get("class"), sort_keys=True)))
+            key = "range:%s:%s:%s:%s" % (m.get("dec"), ev.get("range_file"), ev.get("range_line"), ev.get("range_kind"))
+            ctx.violation(what, {"key": key, "decoder": m.get("dec"), "input_saved": saved, "origin": m.get("origin"), "build": RANGE,
+                                 "site": ev.get("range_site"), "value": ev.get("range_value"),
+                                 "job": stdtrace.job_line(dict(job, **({"in": saved} if saved else {}))), "clauses": r["clauses"], "event": ev})
+            continue
         what = "std/%s: clauses %s violated at trace line %d (event %s) on input %s [%s], schedule %s" % (
             m.get("dec"), r["clauses"], r["line"], {k: ev[k] for k in ev if k not in ("stderr_tail",)}, os.path.basename(m.get("input", "?")),
             m.get("origin"), json.dumps(m.get("class"), sort_keys=True))
@@ -212,12 +287,15 @@ def report(ctx, rejections, meta, jobs):
 
 def replay(ctx, path):
     rep = json.load(open(path))["replay"]
-    tools, root, exes = build(ctx, ["asan"])
+    variant = RANGE if rep.get("build") == RANGE else "asan"
+    tools, root, exes = build(ctx, [] if variant == RANGE else ["asan"], checked=(variant == RANGE))
+    if variant not in exes:
+        raise ToolingError("this replay needs the checked build, but the working tree has no hook H3")
     jl = rep["job"]
     jf = os.path.join(ctx.scratch, "replay-job.txt")
     ef = os.path.join(ctx.scratch, "replay-ev.ndjson")
     open(jf, "w").write(jl + "\n")
-    r = ctx.run([exes["asan"], jf, ef], timeout=600, env=stdbuild.ASAN_ENV)
+    r = ctx.run([exes[variant], jf, ef], timeout=600, env=stdbuild.ASAN_ENV)
     print(r.stdout[-2000:], r.stderr[-4000:])
     if os.path.exists(ef):
         print(open(ef).read()[-3000:])
